@@ -3,9 +3,10 @@
    to OCaml's own types; positive / N / Z / nat stay Coq's inductive types.
    No Extract Constant, no further Extract Inductive. *)
 From Coq Require Import ExtrOcamlBasic.
-From LoraV Require Import Base.Prelude Model.Toa Spec.Airtime.
+From LoraV Require Import Base.Prelude Model.Toa Spec.Airtime Model.Ldro Spec.LdroSpec.
 Extraction Language OCaml.
 Extraction "model.ml"
   Toa.toa_us Toa.toa_safe Toa.ldro Toa.t_sym_us Toa.bw_hz
   Toa.delay_in_symbols Toa.delay_in_symbols_safe Toa.symbols_to_ms Toa.symbols_to_ms_safe
-  Airtime.airtime_us.
+  Airtime.airtime_us
+  Ldro.ldro_outcome LdroSpec.ldro_required.
